@@ -32,6 +32,8 @@ FMT = b"%{tid}|%{tid_kernel}|%{snoopy_threads}|%{filename}|%{login}|%{cmdline}"
 ALL_DS = b"".join(b"%{" + n.encode() + (b":1" if n == "cgroup" else (b":HOME" if n == "env" else b"")) + b"}|" for n in gen.ALL_SOURCES)
 
 
+ERRFMT = (b"%{datetime:" + b"%c" * 12 + b"};%{datetime:};%{env:NOT_SET};%{failure};%{cgroup:nosuchcontroller};%{ipaddr};%{tty_username};"
+          b"%{snoopy_literal:};%{env_all};%{domain};%{systemd_unit_name}|")
 CHAINS = {"none": None, "pass": b"noop;exclude_uid:7;only_uid:0", "droplast": b"noop;exclude_uid:7;only_uid:4242",
           "mixed": b"only_uid:0,4,70000;exclude_uid:4,9;exclude_spawns_of:nosuch,zz;only_root"}
 
@@ -63,6 +65,9 @@ def scenario(out, shape, sched, fmt=FMT):
     okind = shape[2] if len(shape) > 2 else "file"
     chain = CHAINS[shape[3]] if len(shape) > 3 else None
     big0 = len(shape) > 4 and shape[4] == "big0"
+    if len(shape) > 4 and shape[4] == "errfmt":
+        # every data source on its error / fallback path in front of the usual fields (stdin is a terminal without utmp record)
+        fmt = ERRFMT + fmt
     oval = {"file": b"file:" + out.encode() + b"/log", "stdout": b"stdout", "stderr": b"stderr", "socket": b"socket:" + out.encode() + b"/sock"}[okind]
     opts = [(b"output", oval), (b"message_format", fmt)]
     if chain:
@@ -72,7 +77,8 @@ def scenario(out, shape, sched, fmt=FMT):
         opts += [(b"datasource_message_max_length", b"1048575"), (b"log_message_max_length", b"1048575")]
     ini = gen.render_ini(opts)
     ops = [drv.op("x", out + "/log"), drv.op("W", "log", out + "/log"), drv.op("S", 1, "pipe"), drv.op("S", 2, "pipe"), drv.op("K", "sock", out + "/sock"),
-           drv.op("C", ini), drv.op_env([b"LOGNAME=lg", b"HOME=/root"]), drv.op("k", "0002"), drv.op("P")]
+           drv.op("C", ini), drv.op_env([b"LOGNAME=lg", b"HOME=/root"]), drv.op("k", "0002")] + \
+          ([drv.op("S", 0, "pty")] if len(shape) > 4 and shape[4] == "errfmt" else []) + [drv.op("P")]
     flat = [x for p in sched for x in p]
     ops.append(drv.op("z", nt, *flat))
     for t in range(nt):
@@ -156,7 +162,7 @@ def run_sched(d, shape, sched, tsan=False):
         raise Failure("%d records for %d deliverable calls (%s)" % (len(lines), nrec, what), {"records": [l[:120] for l in lines[:8]]}, key="records")
     seen = set()
     for ln in lines[:-1]:
-        f = ln.split(b"|")
+        f = ln.split(b"|")[-6:]
         if len(f) != 6:
             raise Failure("garbled record (%s)" % what, {"record": ln[:200]}, key="garbled")
         m = re.match(rb"^/bin/t(\d)c(\d)$", f[3])
@@ -178,7 +184,7 @@ def run_sched(d, shape, sched, tsan=False):
         if (t, k) in seen:
             raise Failure("two records for one call (%s)" % what, None, key="dup")
         seen.add((t, k))
-    last = lines[-1].split(b"|")
+    last = lines[-1].split(b"|")[-6:]
     if len(last) != 6 or last[2] != b"1" or last[3] != b"/bin/lone":
         raise Failure("after all calls returned a lone call does not see exactly one registered thread (%s)" % what,
                       {"record": lines[-1][:200]}, key="leftover")
@@ -203,7 +209,7 @@ def worker(args):
             trace, steps = run_sched(d, shape, sched, tsan=(variant == "ts-tsan"))
             h = hashlib.sha1((variant + trace).encode()).hexdigest()[:16]
             local.count(h if interleaves(trace) else None, [variant, "shape:%dx%d" % tuple(shape[:2]), "preemptions:%d" % len(sched)] +
-                        (["out:" + shape[2], "chain:" + shape[3]] if len(shape) > 2 else []) + (["oversized-record-in-thread-0"] if len(shape) > 4 else []),
+                        (["out:" + shape[2], "chain:" + shape[3]] if len(shape) > 2 else []) + (["shape:" + shape[4]] if len(shape) > 4 else []),
                         sample={"variant": variant, "shape": list(shape), "preemptions": [list(p) for p in sched], "trace_head": trace[:80]})
         except Failure as f:
             local.count("fail:" + f.key, [variant, "violating"], sample=case)
@@ -324,7 +330,7 @@ def main():
     shapes = [(2, 1), (2, 2), (3, 1)] if ctx.quick else [(2, 1), (2, 2), (3, 1), (2, 3), (3, 2), (4, 1), (4, 3)]
     # other outputs and filter chains (every libc call the library makes is a scheduling point as well)
     shapes += [(2, 1, "stdout", "none"), (2, 1, "socket", "pass"), (2, 1, "file", "droplast"), (2, 1, "stderr", "droplast"), (2, 1, "file", "mixed"),
-               (2, 1, "socket", "none", "big0")]
+               (2, 1, "socket", "none", "big0"), (2, 1, "file", "none", "errfmt")]
     if not ctx.quick:
         shapes += [(3, 1, "stdout", "pass"), (2, 2, "file", "droplast"), (2, 2, "socket", "none"), (3, 1, "stderr", "none")]
     for shape in shapes:
